@@ -33,7 +33,7 @@ func countAccounts(w http.ResponseWriter, r *http.Request) {
 		case errors.Is(err, storagecommon.ErrInvalidQuery{}) || errors.Is(err, ledgerstorage.ErrMissingFeature{}):
 			api.BadRequest(w, common.ErrValidation, err)
 		default:
-			common.HandleCommonErrors(w, r, err)
+			common.HandleCommonPaginationErrors(w, r, err)
 		}
 		return
 	}
